@@ -57,15 +57,40 @@ def run(ctx):
                 # definition of index: SizeT(number % 100) * 2  -> range [0, 198] for an unsigned number
                 defs = [dd for s in astq.nodes_of(f, "DeclStmt") for dd in f.nodes[s]["decls"] if dd.get("d") == d]
                 rng = None
+
+                def interval(nid):
+                    """[lo, hi] of an unsigned expression over `number` in [0, 2^64)"""
+                    nn = f.nodes[nid]
+                    k_ = nn["k"]
+                    if k_ in ("ParenExpr", "ImplicitCastExpr", "CXXFunctionalCastExpr", "CXXUnresolvedConstructExpr", "InitListExpr", "CStyleCastExpr", "CXXStaticCastExpr") and len(nn.get("ch", [])) == 1:
+                        return interval(nn["ch"][0])
+                    cv = m.eval_nodes(f.nodes, nid)
+                    if cv is not None:
+                        return (cv, cv)
+                    if k_ == "DeclRefExpr" and nn.get("n") == "number":
+                        return (0, (1 << 64) - 1)
+                    if k_ == "BinaryOperator":
+                        a_, b_ = interval(nn["ch"][0]), interval(nn["ch"][1])
+                        if a_ is None or b_ is None:
+                            return None
+                        op_ = nn["op"]
+                        if op_ == "%" and b_[0] == b_[1] and b_[0] > 0:
+                            return (0, min(a_[1], b_[0] - 1))
+                        if op_ == "*":
+                            return (a_[0] * b_[0], a_[1] * b_[1])
+                        if op_ == "<<" and b_[0] == b_[1]:
+                            return (a_[0] << b_[0], a_[1] << b_[0])
+                        if op_ == ">>" and b_[0] == b_[1]:
+                            return (a_[0] >> b_[0], a_[1] >> b_[0])
+                        if op_ == "+":
+                            return (a_[0] + b_[0], a_[1] + b_[1])
+                        if op_ == "/" and b_[0] == b_[1] and b_[0] > 0:
+                            return (a_[0] // b_[0], a_[1] // b_[0])
+                        if op_ == "&" and b_[0] == b_[1]:
+                            return (0, min(a_[1], b_[0]))
+                    return None
                 for dd in defs:
-                    t = f.text(dd["init"]).replace(" ", "")
-                    mod = [x for x in f.walk(dd["init"]) if f.nodes[x]["k"] == "BinaryOperator" and f.nodes[x]["op"] == "%"]
-                    mul = [x for x in f.walk(dd["init"]) if f.nodes[x]["k"] == "BinaryOperator" and f.nodes[x]["op"] == "*"]
-                    if len(mod) == 1 and len(mul) == 1:
-                        mc = m.eval_nodes(f.nodes, f.strip_casts(f.nodes[mod[0]]["ch"][1]))
-                        kc = m.eval_nodes(f.nodes, f.strip_casts(f.nodes[mul[0]]["ch"][1]))
-                        if mc and kc:
-                            rng = (0, (mc - 1) * kc)
+                    rng = interval(dd["init"])
                 if rng is None:
                     raise Unrecognised("definition of `index`")
                 ps = pwl.pieces(f, idx, d, rng[0], rng[1])
